@@ -57,6 +57,7 @@ ASSUME \A f \in TreeFilters : \A o \in 1..NOps : MatchTable[f][o] # "U"
 TExport ==
   IF tree = << >> THEN TRUE
   ELSE PrintT(<<"TREE", ToJson([door |-> door, nodes |-> tree,
+                                 dialect |-> Dialects[((Len(tree) + SumSet({tree[k].f : k \in 1..Len(tree)})) % 3) + 1],
                                  expect |-> [k \in 1..(Len(tree) + 1) |-> NodeExpect(door, tree, k - 1)],
                                  stat |-> [k \in 1..(Len(tree) + 1) |-> NodeStat(door, tree, k - 1)]])>>)
 =============================================================================
